@@ -60,6 +60,8 @@ THEOREMS = (
        "atx_length_exact",
        "luba_checksum_valid", "sci_checksum_valid", "luba_format_checksum_valid", "sci_format_checksum_valid",
        "hidhasseb_decode_wellformed", "daliserver_decode_wellformed", "unipi_decode_wellformed",
+       "unipi_reply_detected_iff", "unipi_reply_detected_across_wrap", "unipi_poll_reply_any_position",
+       "unipi_answered_query_returns_value", "unipi_unanswered_query", "unipi_no_reply_expected",
        "tridonic_decode_wellformed", "ltridonic_decode_wellformed", "lhasseb_decode_wellformed",
        "atx_decode_wellformed", "atx_hexByte_digits", "tridonic_receive_wellformed", "tridonic_receive_waits",
        "frame_bytes_recoverable"]
@@ -153,6 +155,8 @@ class Env:
         self.ltrid = object.__new__(ltri.TridonicDALIUSBDriver)
         self.lhasd = object.__new__(lhas.HassebDALIUSBDriver)
         self.unid = object.__new__(uni.UnipiDALIDriver)
+        uni.sleep = lambda secs: None      # the polling loop sleeps 11 ms per iteration
+        self._unisync = {}
 
     # ---- commands
     def stub(self, bits, data, twice, query=False, kind="plain"):
@@ -302,6 +306,51 @@ class Env:
             return "raise:" + type(e).__name__
         raise InfraError(drv)
 
+    # ---- UniPi: the real SyncUnipiDALIDriver.send against a register backend
+    def unicmd(self, name):
+        if name == "stubq":
+            return self.stub(16, 0xA000, False, query=True)
+        if name == "stubq2":
+            return self.stub(16, 0xA100, True, query=True)
+        if name == "stubnq":
+            return self.stub(16, 0xFE80, False)
+        if name == "qal":
+            return self.gg.QueryActualLevel(0)
+        if name == "qstatus":
+            return self.gg.QueryStatus(self.gg.address.Short(63))
+        if name == "compare":
+            return self.gg.Compare()
+        raise InfraError("unipi command " + name)
+
+    def unidrv(self, bus):
+        if bus not in self._unisync:
+            self._unisync[bus] = self.uni.SyncUnipiDALIDriver(bus=bus)
+        return self._unisync[bus]
+
+    def uniflags(self, c):
+        """(expects a reply, what `_reply_compare_frame` tests, is a Compare command)"""
+        return (1 if c.response is not None else 0,
+                1 if (hasattr(c, "_cmdval") and c._cmdval == self.gg.Compare._cmdval) else 0,
+                1 if isinstance(c, self.gg.Compare) else 0)
+
+    def unisend(self, drv, backend, c):
+        """-> canonical result of the real `send`"""
+        drv.backend = backend
+        try:
+            r = drv.send(c)
+        except Exception as e:  # noqa
+            return "raise:" + type(e).__name__
+        if r is self.uni.DALI_NO_RESPONSE:
+            return "noresponse"
+        if isinstance(r, self.command.Response):
+            raw = r.raw_value
+            if raw is None:
+                return "resp:none"
+            if isinstance(raw, self.frame.BackwardFrame) and not isinstance(raw, self.frame.BackwardFrameError):
+                return "resp:%d" % raw.as_integer
+            return "resp:?%s" % type(raw).__name__
+        return "?" + type(r).__name__
+
     def trirecv(self, twice, query, msgs):
         """run hid.tridonic._send_raw with the given response reports queued for its sequence number"""
         t = self.tri
@@ -320,6 +369,188 @@ class Env:
         if st == "err":
             return "pending" if v == "CommunicationError" else "raise:" + v
         return self.meaning(v)
+
+
+class ScriptedUnipi:
+    """Modbus register backend that plays a fixed script: the sampled counters, then the registers of each poll."""
+
+    def __init__(self, drv, c1, fe1, polls):
+        self.recvreg, self.fereg, self.sendreg = drv._recvreg, drv._fereg, drv._sendreg
+        self.c1, self.fe1, self.polls = c1, fe1, polls
+        self.i = -1
+        self.fe_sampled = False
+        self.writes, self.stray = [], []
+
+    def write_regs(self, reg, values, unit=None):
+        self.writes.append((reg, tuple(values)))
+
+    def _poll(self):
+        return self.polls[min(max(self.i, 0), len(self.polls) - 1)]
+
+    def read_regs(self, reg, cnt, unit=None):
+        if reg == self.recvreg and cnt == 1:
+            return [self.c1]
+        if reg == self.fereg and cnt == 1:
+            if not self.fe_sampled:
+                self.fe_sampled = True
+                return [self.fe1]
+            return [self._poll()[3]]
+        if reg == self.recvreg and cnt == 3:
+            self.i += 1
+            return list(self._poll()[:3])
+        self.stray.append((reg, cnt))
+        return [0] * cnt
+
+
+class SessionUnipi:
+    """A gateway whose receive counter persists over a session of exchanges (the hidden state): frames scheduled
+    for the current exchange arrive just before the poll with the given index."""
+
+    def __init__(self, drv, counter):
+        self.recvreg, self.fereg = drv._recvreg, drv._fereg
+        self.counter, self.typ, self.data, self.fe = counter, 0, 0, 0
+        self.begin({})
+
+    def begin(self, events):
+        self.events, self.poll, self.log, self.c1, self.writes = dict(events), -1, [], None, []
+
+    def write_regs(self, reg, values, unit=None):
+        self.writes.append((reg, tuple(values)))
+
+    def read_regs(self, reg, cnt, unit=None):
+        if reg == self.fereg:
+            return [self.fe]
+        if cnt == 1:
+            self.c1 = self.counter
+            return [self.counter]
+        self.poll += 1
+        if self.poll in self.events:
+            self.typ, self.data = self.events[self.poll]
+            self.counter = (self.counter + 1) & 0xFFFF
+        self.log.append((self.counter, self.typ, self.data, self.fe))
+        return [self.counter, self.typ, self.data]
+
+
+def fmt_polls(polls):
+    return ",".join("%d:%d:%d:%d" % tuple(p) for p in polls) or "-"
+
+
+def fmt_events(events):
+    return ",".join("%d:%d:%d" % tuple(e) for e in events) or "-"
+
+
+def uni_scenarios(rng, thorough):
+    """(command name, bus, counter, stale type, stale data, fe, events, feAt)"""
+    counters = list(range(0xFFF0, 0x10000)) + [0, 1, 2, 0x7FFF, 0x8000, 0xFF, 0x100] + \
+        [rng.randrange(65536) for _ in range(150 if thorough else 30)]
+    queries = ["stubq", "qal", "compare", "stubq2", "qstatus"]
+    out = []
+    for n, c in enumerate(counters):
+        def q():
+            return rng.choice(queries)
+        def stale():
+            return rng.choice([(0, 0), (0x100, rng.randrange(256)), (0x200, rng.randrange(65536)), (0x300, 5)])
+        bus = rng.choice([0, 0, 1, 2, 3])
+        fe = rng.choice([0, 65535, rng.randrange(65536)])
+        for k in range(6):                                     # answered, the reply arrives before poll k
+            out.append((queries[(n + k) % len(queries)], bus, c, *stale(), fe, [(k, 0x100, rng.randrange(256))], None))
+        out.append((q(), bus, c, *stale(), fe, [], None))      # unanswered, stale registers
+        out.append((q(), bus, c, 0x100, rng.randrange(256), fe, [], None))
+        j = rng.randrange(0, 5)
+        k = rng.randrange(j + 1, 6)
+        out.append((q(), bus, c, *stale(), fe, [(j, 0x200, rng.randrange(65536)), (k, 0x100, rng.randrange(256))], None))
+        out.append((q(), bus, c, *stale(), fe, [(j, 0x200, rng.randrange(65536)), (k, 0x200, rng.randrange(65536))], None))
+        out.append((q(), bus, c, *stale(), fe, [(j, 0x300, rng.randrange(65536))], None))
+        out.append(("compare", bus, c, *stale(), fe, [], j))   # Compare: framing error counted / and answered
+        out.append(("compare", bus, c, *stale(), fe, [(k, 0x100, 0xFF)], j))
+        out.append(("compare", bus, c, *stale(), fe, [(j, 0x100, 0xFF)], k))
+        out.append((q(), bus, c, *stale(), fe, [(k, 0x100, rng.randrange(256))], j))
+        out.append(("stubnq", bus, c, *stale(), fe, [(0, 0x100, 7)], None))   # no reply expected
+    return out
+
+
+def uni_run(env, name, bus, line):
+    """replay one `unirecv` line on the real driver"""
+    parts = line.split()
+    c1, fe1 = int(parts[3]), int(parts[4])
+    polls = [] if parts[5] == "-" else [tuple(int(x) for x in p.split(":")) for p in parts[5].split(",")]
+    drv = env.unidrv(bus)
+    back = ScriptedUnipi(drv, c1, fe1, polls or [(c1, 0, 0, fe1)])
+    c = env.unicmd(name)
+    return env.unisend(drv, back, c), back, c, drv
+
+
+def uni_check(corr, env, name, bus, line, specline, model, spec):
+    impl, back, c, drv = uni_run(env, name, bus, line)
+    inp = "%s ; %s ; cmd=%s bus=%d" % (line, specline, name, bus)
+    if model != impl:
+        corr.disagree("unipi_receive", inp, model, impl)
+    if spec != impl:
+        corr.violate("meaning:unipi-recv", inp, spec, impl,
+                     "the UniPi receive registers denote %s for this exchange (whatever the receive counter), "
+                     "send returned %s" % (spec, impl))
+    want = [(drv._sendreg, tuple(env.unid.construct(c)))] * (2 if c.sendtwice else 1)
+    if back.writes != want or back.stray:
+        corr.disagree("unipi_send", inp, "writes %r, no other register read" % (want,),
+                      "writes %r, stray reads %r" % (back.writes, back.stray))
+    corr.nontrivial(("unipi", "recv", impl.split(":")[0], name))
+    corr.bump("unipi-recv:" + ("answered" if impl.startswith("resp:") and impl != "resp:none" else impl))
+
+
+def correspond_unipi(ctx, corr, env):
+    """UniPi receive side: the real SyncUnipiDALIDriver.send against (a) the registers the format's gateway shows
+    (Lean `unipiPolls`, receive counter at every value near the wrap and at random values) and (b) a session
+    gateway whose counter persists across exchanges and crosses the wrap; oracle `unipiExchange`."""
+    rng = ctx.rng
+    sc = uni_scenarios(rng, ctx.thorough)
+    ans = model_batch(["spec unipolls %d %d %d %d %s %s" % (c, t, d, fe, fmt_events(ev), "-" if fa is None else fa)
+                       for (_, _, c, t, d, fe, ev, fa) in sc])
+    lines, meta = [], []
+    for (name, bus, c, t, d, fe, ev, fa), a in zip(sc, ans):
+        if not a.startswith("ok "):
+            raise InfraError("m_wire answered %r" % a)
+        q, cmp_code, cmp_spec = env.uniflags(env.unicmd(name))
+        line = "unirecv %d %d %d %d %s" % (q, cmp_code, c, fe, a[3:])
+        specline = "spec unirecv %d %d %s %s" % (q, cmp_spec, fmt_events(ev), "-" if fa is None else fa)
+        lines += [line, specline]
+        meta.append((name, bus, line, specline))
+    ans = model_batch(lines)
+    for i, (name, bus, line, specline) in enumerate(meta):
+        uni_check(corr, env, name, bus, line, specline, ans[2 * i], ans[2 * i + 1])
+    corr.count("unipi_receive", len(meta))
+    corr.exhaustive["UniPi receive counter 0xFFF0..0xFFFF,0,1,2 x reply before poll 0..5"] = True
+    # (b) sessions: the counter is the gateway's, it persists and wraps
+    lines, meta, impls = [], [], []
+    for start in (0xFFE0, 0xFFFF, rng.randrange(65536)):
+        bus = rng.choice([0, 1, 3])
+        drv = env.unidrv(bus)
+        gw = SessionUnipi(drv, start)
+        for n in range(48):
+            name = rng.choice(["stubq", "qal", "qstatus", "stubq2"])
+            c = env.unicmd(name)
+            ev = []
+            if rng.random() < 0.3:
+                ev.append((rng.randrange(0, 3), 0x200, rng.randrange(65536)))
+            if n % 5 != 4:
+                ev.append((rng.randrange(ev[0][0] + 1 if ev else 0, 6), 0x100, rng.randrange(256)))
+            gw.begin({k: (t, d) for k, t, d in ev})
+            impl = env.unisend(drv, gw, c)
+            polls = list(gw.log) + [gw.log[-1]] * (6 - len(gw.log))
+            q, cmp_code, cmp_spec = env.uniflags(c)
+            line = "unirecv %d %d %d %d %s" % (q, cmp_code, gw.c1, gw.fe, fmt_polls(polls))
+            specline = "spec unirecv %d %d %s -" % (q, cmp_spec, fmt_events(ev))
+            lines += [line, specline]
+            meta.append((name, bus, line, specline))
+            impls.append(impl)
+    ans = model_batch(lines)
+    for i, ((name, bus, line, specline), impl) in enumerate(zip(meta, impls)):
+        inp = "%s ; %s ; cmd=%s bus=%d" % (line, specline, name, bus)
+        if ans[2 * i] != impl:
+            corr.disagree("unipi_session", inp, ans[2 * i], impl)
+        if ans[2 * i + 1] != impl:
+            corr.violate("meaning:unipi-recv", inp, ans[2 * i + 1], impl,
+                         "session: the gateway delivered %s, send returned %s" % (ans[2 * i + 1], impl))
+    corr.count("unipi_session", len(meta))
 
 
 def model_batch(lines):
@@ -347,7 +578,10 @@ def correspond(ctx, corr):
         "real encoders/decoders of the 9 drivers vs Lean model and vs Lean gateway format: EXHAUSTIVE all 2^16 16-bit "
         "frames x send-twice per driver (stub commands), every width 1..64 x twice, all status/type codes x bytes on the "
         "receive side, all 255 Tridonic sequence starts x 600 sends; all 2^16 decoded real commands through LUBA "
-        "(priority rule) and Tridonic; SAMPLED 24-bit frames, sequence positions; non-trivial = distinct (driver, packet "
+        "(priority rule) and Tridonic; UniPi receive: the real SyncUnipiDALIDriver.send against the gateway's registers "
+        "with the receive counter at 0xFFF0..0xFFFF,0,1,2 and random values x reply before poll 0..5 / unanswered / "
+        "echo first / Compare with framing error, plus sessions whose counter persists across the wrap; "
+        "SAMPLED 24-bit frames, sequence positions; non-trivial = distinct (driver, packet "
         "shape / meaning / exception class)")
 
     # ---- 1. exhaustive 16-bit space x twice, stub commands, in blocks
@@ -546,6 +780,9 @@ def correspond(ctx, corr):
     corr.exhaustive["Tridonic sequence starts 1..255 x 700 sends"] = True
     corr.nontrivial(("seq", "wrap"))
 
+    # ---- 5. UniPi receive side (hidden gateway state: the receive counter)
+    correspond_unipi(ctx, corr, env)
+
 
 def replay(ctx, payload):
     v = payload.get("failure") or {}
@@ -558,6 +795,14 @@ def replay(ctx, payload):
         inp = ds[0]["input"]
     env = Env()
     parts = inp.split()
+    if parts[0] == "unirecv":
+        line, specline, rest = [x.strip() for x in inp.split(";")]
+        kv = dict(x.split("=") for x in rest.split())
+        impl, back, _, _ = uni_run(env, kv["cmd"], int(kv["bus"]), line)
+        m, sp = model_batch([line, specline])
+        print("input :", line, "\n        (%s, command %s on bus %s)" % (specline, kv["cmd"], kv["bus"]))
+        print("code  :", impl, "\nmodel :", m, "\nformat:", sp)
+        return sp != impl
     if parts[0] == "enc":
         drv, bits, data, t, q, s, d, seq = parts[1], *[int(x) for x in parts[2:9]]
         kind = "dapc" if d else ("std" if s else "plain")
